@@ -39,6 +39,12 @@ type Check struct {
 	HangAfter     time.Duration // no WAL progress for this long = hang (CrashTolerant only)
 	MinOutcomes   int           // vacuity guard (default 2)
 	Sched         bool          // needs the binary built with the rewritten synchronisation
+	// Procs: GOMAXPROCS of each worker ("" = 1, or 2 for Sched checks)
+	Procs string
+	// StderrViolation inspects the stderr of a worker that has ended (e.g. race detector reports).
+	StderrViolation func(stderr string) *Violation
+	// Hidden checks are helpers invoked by other checks (not listed in the manifest).
+	Hidden bool
 	// ThoroughDeadline/QuickDeadline: internal deadline after which workers stop and
 	// the run is reported exhaustive:false.
 	QuickDeadline, ThoroughDeadline time.Duration
@@ -70,6 +76,8 @@ type Violation struct {
 	Note     string          `json:"note,omitempty"`
 	Size     int             `json:"size"` // smaller = simpler; the smallest per signature is kept
 	Hang     bool            `json:"hang,omitempty"`
+	// NoConfirm: the case comes from a free-running (timing dependent) pass and is not re-run
+	NoConfirm bool `json:"no_confirm,omitempty"`
 }
 
 type record struct {
@@ -201,6 +209,9 @@ func (w *W) Expired() bool {
 	return false
 }
 
+// Capped records that a cap cut an enumeration short: the run is reported exhaustive:false.
+func (w *W) Capped() { w.st.Expired = true }
+
 func (w *W) Eval(n int)         { w.st.Evaluations += int64(n) }
 func (w *W) Transitions(n int)  { w.st.Transitions += int64(n) }
 func (w *W) States(n int)       { w.st.States += int64(n) }
@@ -281,6 +292,13 @@ func (w *W) Violation(sig string, c interface{}, expected, actual string, size i
 	}
 	b, _ := json.Marshal(c)
 	w.emit(record{T: "viol", Viol: &Violation{Property: w.ID, Tier: w.Tier, Sig: sig, Case: b, Expected: expected, Actual: actual, Size: size}})
+}
+
+// ViolationNoConfirm reports a violation found by a free-running pass (not replayed for confirmation).
+func (w *W) ViolationNoConfirm(sig string, c interface{}, expected, actual string) {
+	b, _ := json.Marshal(c)
+	w.Extra("violating_cases", 1)
+	w.emit(record{T: "viol", Viol: &Violation{Property: w.ID, Tier: w.Tier, Sig: sig, Case: b, Expected: expected, Actual: actual, Size: 1, NoConfirm: true}})
 }
 
 func (w *W) emit(r record) {
@@ -370,7 +388,7 @@ func runWorker(c *Check, tier string, shard, n int, deadline time.Duration, res 
 	for {
 		cmd := exec.Command(os.Args[0], "-worker", c.ID, tier, strconv.Itoa(shard), strconv.Itoa(n),
 			strconv.FormatInt(resume, 10), strconv.FormatFloat(deadline.Seconds(), 'f', 1, 64))
-		cmd.Env = append(os.Environ(), "GOMAXPROCS="+workerProcs(c), "GOTRACEBACK=single")
+		cmd.Env = append(os.Environ(), "GOMAXPROCS="+workerProcs(c), "GOTRACEBACK=single", "GORACE=halt_on_error=0 exitcode=0")
 		if c.CrashTolerant {
 			d, _ := os.MkdirTemp("", "vcheck-"+c.ID+"-")
 			cmd.Dir = d
@@ -449,6 +467,17 @@ func runWorker(c *Check, tier string, shard, n int, deadline time.Duration, res 
 		}
 		werr := cmd.Wait()
 		close(stopWatch)
+		if c.StderrViolation != nil {
+			if v := c.StderrViolation(stderr.String()); v != nil {
+				v.Property, v.Tier = c.ID, tier
+				mu.Lock()
+				res.viols = append(res.viols, v)
+				mu.Unlock()
+				if done {
+					return
+				}
+			}
+		}
 		if done && werr == nil {
 			return
 		}
@@ -486,6 +515,9 @@ func runWorker(c *Check, tier string, shard, n int, deadline time.Duration, res 
 }
 
 func workerProcs(c *Check) string {
+	if c.Procs != "" {
+		return c.Procs
+	}
 	if c.Sched {
 		return "2"
 	}
@@ -620,11 +652,12 @@ func drive(c *Check, tier string) int {
 	exit := 0
 	nviol := 0
 	nknown := 0
+	unconfirmed := 0
 	var vioSamples []interface{}
 	for _, s := range sigs {
 		v := bySig[s]
 		// confirm by replay (fresh state, no explorer) unless the check has no replayer
-		if c.Replay != nil && !c.CrashTolerant {
+		if c.Replay != nil && !c.CrashTolerant && !v.NoConfirm {
 			confirmed := 0
 			tries := 3
 			if v.Hang {
@@ -638,13 +671,11 @@ func drive(c *Check, tier string) int {
 			if v.Hang && confirmed == 1 {
 				confirmed = 3
 			}
-			if confirmed == 0 {
-				fmt.Fprintf(os.Stderr, "HARNESS-ERROR property=%s violation %q did not reproduce in replay (0/3); case=%s\n", c.ID, s, v.Case)
-				return 2
-			}
 			if confirmed < 3 {
-				fmt.Fprintf(os.Stderr, "HARNESS-ERROR property=%s violation %q is not deterministic (%d/3)\n", c.ID, s, confirmed)
-				return 2
+				// not believed: a violation must reproduce identically on a fresh process
+				fmt.Fprintf(os.Stderr, "UNCONFIRMED property=%s violation %q reproduced %d/3 times in replay and is not reported; case=%s\n", c.ID, s, confirmed, trunc(string(v.Case), 400))
+				unconfirmed++
+				continue
 			}
 		}
 		matched := false
@@ -674,6 +705,9 @@ func drive(c *Check, tier string) int {
 	if len(tot.Outcomes) < min && exit == 0 && !tot.Expired {
 		fmt.Fprintf(os.Stderr, "HARNESS-ERROR property=%s vacuous exploration: %d distinct outcomes\n", c.ID, len(tot.Outcomes))
 		return 2
+	}
+	if unconfirmed > 0 {
+		tot.Extra["unconfirmed_violations_dropped"] = int64(unconfirmed)
 	}
 	writeEvidence(c, tier, &tot, nviol, nknown, vioSamples, time.Since(start), n)
 	fmt.Printf("%s %s: evaluations=%d distinct_nontrivial=%d states=%d transitions=%d outcomes=%d violations=%d known=%d exhaustive=%v wall=%.1fs\n",
